@@ -4,6 +4,7 @@ theorems Properties/C08.v; correspondence against layout21tetris Library::to_raw
 (RawExporter::convert) through harness/src/bin/c08.rs."""
 import json, math, copy
 from vlib import *
+from props.kernelcommon import kernel_tie_leg
 
 # ------------------------------------------------------------------ the stack family
 def E(k, w): return [k, w]
@@ -461,6 +462,8 @@ def nontrivial(case, r):
 def run(chk, replay=None):
     chk.proof_leg(["Tetris/CompileCheck.vo"], "Properties/C08.v",
                   ["Tetris/Compile_proofs.v", "Tetris/CompileFull_proofs.v"], "Properties.C08")
+    kernel_tie_leg(chk, "tetris_stack")       # generated-from-source kernels = the model functions (Properties/KernelsTetris.v)
+    kernel_tie_leg(chk, "tetris_tracks")      # Track::cut_or_block generated from the source = the model (Properties/KernelsTetris.v)
     chk.assumptions += [
         "isize/usize overflow is not modelled (integers are Z); all coordinates of the run are below 2^31",
         "instances are absolutely placed (Placer::place is the identity on them and keeps their order); cells have a layout view with a rectangular outline, non-empty names, no `places`",
